@@ -62,6 +62,18 @@ pub fn is_unexpected_eof(e: &std::io::Error) -> (r: bool)
 pub fn instant_after(d: std::time::Duration) -> std::time::Instant
 { std::time::Instant::now() + d }
 
+/// R22: `bounds.start_bound()` / `bounds.end_bound()` through a generic `impl RangeBounds<usize>`.  Assumed: the trait method returns
+/// what vstd's spec of the trait (`spec_start_bound` / `spec_end_bound`, which vstd ties to every concrete std range type) says.
+#[verifier::external_body]
+pub fn start_bound<R: std::ops::RangeBounds<usize>>(r: &R) -> (b: std::ops::Bound<&usize>)
+    ensures b == vstd::std_specs::range::RangeBoundsSpec::spec_start_bound(r),
+{ r.start_bound() }
+
+#[verifier::external_body]
+pub fn end_bound<R: std::ops::RangeBounds<usize>>(r: &R) -> (b: std::ops::Bound<&usize>)
+    ensures b == vstd::std_specs::range::RangeBoundsSpec::spec_end_bound(r),
+{ r.end_bound() }
+
 /// R19: `(start..).zip(it)`.  Assumed (the std contracts of RangeFrom<u64> and Zip): a well-behaved finite iterator
 /// stays so, and the i-th pair is (start + i, i-th element of `it`).
 #[verifier::external_body]
